@@ -1,12 +1,13 @@
 (* Correspondence evaluation for scenario "stores". *)
-From UV Require Export Build.Store Corr.Fp Corr.Hamt.
+From UV Require Export Build.Store Build.ImportStore Corr.Fp Corr.Hamt Corr.FsImport.
 Local Open Scope N_scope.
 
 Inductive sbuild :=
 | SFile (width : N) (lens : list N) (seed : N)
 | SSymlink (target : bytes)
 | SPlain (entries : list hentry)
-| SSharded (fanout : N) (entries : list hentry).
+| SSharded (fanout : N) (entries : list hentry)
+| SRecursive (t : fsnode).                       (* BuildUnixFSRecursive over a small tree (plain directories, one-chunk files) *)
 
 Record store_case := mk_store {
   sc_build : sbuild;
@@ -26,6 +27,7 @@ Definition store_case_ok (c : store_case) : bool :=
       | SSymlink t => BuildUnixFSSymlink fo fc t ws0
       | SPlain es => BuildUnixFSDirectoryPlain fo fc (map to_entry es) ws0
       | SSharded f es => BuildUnixFSShardedDirectory fo fc f HashMurmur3 (map to_entry es) ws0
+      | SRecursive t => BuildUnixFSRecursive fo fc 174 chunk_small (fun _ => []) t ws0
       end in
   Bool.eqb (match lnk with Some _ => true | None => false end) (sc_has_link c)
   && Bool.eqb (match err with Some _ => true | None => false end) (sc_has_err c)
